@@ -65,7 +65,7 @@ class Retarget(Machine):
         "rejected_n_points", "rejected_n_dims", "rejected_between_accepted", "set_target_on_copy",
         "mirror_needed_allow_off", "mirror_needed_allow_on", "similarity_rotation_off",
         "tps_floor_matters", "gpa_checked", "gpa_not_converged", "noise_before_retarget", "pinv_retargeted",
-        "integer_dtype_first_target", "same_target_reset_after_inplace_edit", "target_is_a_pointcloud_subclass", "rejected_same_size_other_shape",
+        "integer_dtype_first_target", "single_precision_source_and_first_target", "same_target_reset_after_inplace_edit", "target_is_a_pointcloud_subclass", "rejected_same_size_other_shape",
         "only_some_target_points_moved")
 
     @classmethod
@@ -218,6 +218,13 @@ class Retarget(Machine):
             # the first target given as an integer-dtype array (pixel positions); PointCloud keeps the dtype
             tgt = np.round(tgt * 3.0).astype(np.int64)
             self.ctx.probe("integer_dtype_first_target")
+        elif op["seed"] % 8 == 6 and kind.startswith("Alignment"):
+            # source and first target held in single precision (as loaded from a compact file); later targets are
+            # doubles.  The comparison alignment is built from the same single-precision source.
+            src = src.astype(np.float32)
+            e.src = src
+            tgt = tgt.astype(np.float32)
+            self.ctx.probe("single_precision_source_and_first_target")
         trimesh = kind == "PiecewiseAffine" and opts.get("src_trimesh")
         srcobj = self._pass(src, trimesh=trimesh)
         if trimesh:
@@ -419,7 +426,9 @@ class Retarget(Machine):
                     n = Entry()
                     n.__dict__.update(e.__dict__)
                     n.al, n.is_copy, n.is_pinv = p, True, True
-                    n.src = np.array(p.source.points, dtype=float)
+                    # "the same source": the inverse's source is the forward target as it is held (a single-precision
+                    # point set stays one in the comparison alignment; integer pixel positions are compared as floats)
+                    n.src = np.array(p.source.points) if p.source.points.dtype.kind == "f" else np.array(p.source.points, dtype=float)
                     n.tgt = np.array(p.target.points)
                     n.sets = 0
                     n.probe = self._probe_points(n)
